@@ -93,7 +93,7 @@ def run(ctx, case):
         _, pt, _ = M.split_table(dft)
         _, po, _ = M.split_table(dfo)
         rt, rp = pt[""]["rows"], po[p]["rows"]
-        tt = H.TwinTol(rp)
+        tt = H.TwinTol(rp, rows2=rt)
         bad = []
         C = M.COLS
         for n, x in rt.items():
